@@ -63,7 +63,7 @@ add("C06", ["v_codec", "v_schemacodec"], ["mal_"],
     level_text="For fixed-size targets every input of every length up to the encoded size is covered (Kani, complete): no panic, no overflow, no memory-safety failure, returned values valid (bool/char bit patterns, enum tags), consumed length consistent; bulk paths of Vec/array/ArrayVec with arbitrary declared lengths; SystemTime/Duration arithmetic.",
     level_note="Variable-size targets (String, maps, schema bytes, BitVec) are not covered; stack exhaustion not decidable.",
     technique="Kani harnesses over fully symbolic input bytes", trusted_base=TB)
-add("C07", ["v_codec", "v_crypto"], ["trunc_"],
+add("C07", ["v_codec", "v_codec_ptr", "v_crypto"], ["trunc_"],
     level_text="lemma_prefix (Verus): no strict prefix of an encoding is accepted, generically for the codec impls under contract; Kani: for each container-family type, every cut offset of every saved schema-less file is rejected (symbolic value and cut).",
     level_note="Compressed / encrypted containers: bounded native runs only (real bzip2 / ring).",
     technique="Verus lemma over decoder contracts; Kani truncation harnesses", trusted_base=TB)
